@@ -23,6 +23,7 @@ func init() {
 		&Rule{ID: "WR-ENUM", Doc: "wire converters (operators, term kinds, policy kinds) are total, mutually inverse and name-consistent", Run: ruleWREnum, Min: 50},
 		&Rule{ID: "WR-SYMS", Doc: "default symbol table, offset 1024 and per-block symbol split points are the specified ones", Run: ruleWRSyms, Min: 8},
 		&Rule{ID: "WR-FIELDS", Doc: "every converter reads every field of its source structure and sets every field of its result", Run: ruleWRFields, Min: 20},
+		&Rule{ID: "WR-ELEMWISE", Doc: "element-wise conversion loops produce exactly one output element per input element", Run: ruleWRElemwise, Min: 10},
 		&Rule{ID: "WR-VERSION", Doc: "blocks outside the supported schema version are rejected; encoders write the supported version", Run: ruleWRVersion, Min: 4},
 	)
 }
@@ -561,6 +562,36 @@ func ruleWRSyms(p *Prog, r *Reporter) {
 		}
 		r.Check(uses > 0 && bad == "", p.Pos(fn.Pos()), p.FuncName(fn), "threshold", "uses offset 1024 only", firstNonEmpty(bad, "no use of the offset 1024"))
 	}
+	// lookups accept exactly the valid range: the tightest upper bound on a table index is the table's length
+	stT := p.NamedType("datalog", "SymbolTable")
+	for _, fn := range p.funcsIn("datalog") {
+		if fn.Signature.Recv() == nil || stT == nil || !types.Identical(deref(fn.Signature.Recv().Type()), stT) {
+			continue
+		}
+		rls := rangeLoops(fn)
+		for _, b := range fn.Blocks {
+			for _, in := range b.Instrs {
+				ia, ok := in.(*ssa.IndexAddr)
+				if !ok {
+					continue
+				}
+				if _, isConst := constInt(ia.Index); isConst {
+					continue
+				}
+				isRange := false
+				for _, rl := range rls {
+					if ia.Index == ssa.Value(rl.incr) {
+						isRange = true
+					}
+				}
+				if isRange {
+					continue
+				}
+				tight, why := tightestUpperBound(p, b, ia)
+				r.Check(tight, p.instrPos(ia), p.FuncName(fn), "exact range of "+normaliseD(shortD(ia.Index)), "the index is accepted exactly when it is below the length of the table", why)
+			}
+		}
+	}
 	// builders record the split point and split there
 	for _, spec := range []struct{ recv, name string }{{"", "NewBlockBuilder"}, {"", "NewBuilder"}, {"symbolsOption", "applyToBuilder"}} {
 		fn := p.Func("biscuit", spec.recv, spec.name)
@@ -789,4 +820,138 @@ func ruleWRVersion(p *Prog, r *Reporter) {
 			r.Check(isC && k == 3, p.instrPos(a), p.FuncName(fn), "built block version", "built blocks carry version 3", "a built block does not carry schema version 3")
 		}
 	}
+}
+
+var converterName = regexp.MustCompile(`^(token|proto).*To(Proto|Token)|^convert$|^fromDatalog`)
+
+func ruleWRElemwise(p *Prog, r *Reporter) {
+	globalP = p
+	for _, fn := range p.funcsIn("biscuit") {
+		if fn.Parent() != nil || !converterName.MatchString(fn.Name()) {
+			continue
+		}
+		name := p.FuncName(fn)
+		for _, rl := range rangeLoops(fn) {
+			// element writes inside the loop: out[i] = x (i the loop index) or out = append(out, x)
+			writes := blockSet{}
+			n := 0
+			for b := range rl.body {
+				for _, in := range b.Instrs {
+					switch x := in.(type) {
+					case *ssa.Store:
+						if ia, ok := x.Addr.(*ssa.IndexAddr); ok && ia.Index == ssa.Value(rl.incr) {
+							writes[b] = true
+							n++
+						}
+					case *ssa.Call:
+						if bi, ok := x.Call.Value.(*ssa.Builtin); ok && bi.Name() == "append" {
+							writes[b] = true
+							n++
+						}
+					}
+				}
+			}
+			if n == 0 {
+				continue
+			}
+			ok := true
+			for _, latch := range rl.latches {
+				if reachAvoiding(rl.bodyBB, latch, writes) {
+					ok = false
+				}
+			}
+			r.Check(ok, p.instrPos(rl.header.Instrs[0]), name, "loop over "+normaliseD(shortD(rl.seq)), "every iteration that continues has written its output element", "an input element can be skipped (continue / conditional write) in an element-wise conversion: the converted value has fewer elements than its source (e.g. an operator dropped from an expression on the wire)")
+		}
+	}
+}
+
+// tightestUpperBound: among the dominating comparisons of the index with constants / the sequence length,
+// the tightest one must be exactly "index < len(sequence)" (not stricter: a valid index must not be rejected).
+func tightestUpperBound(p *Prog, blk *ssa.BasicBlock, ia *ssa.IndexAddr) (bool, string) {
+	src := stripAllConv(ia.Index)
+	srcD := p.D(src)
+	var constLen int64 = -1
+	lenD := ""
+	if arr, ok := deref(ia.X.Type()).Underlying().(*types.Array); ok {
+		constLen = arr.Len()
+	} else {
+		lenD = "len(" + p.D(ia.X) + ")"
+	}
+	best := int64(1) << 62 // strict bound: idx < best ; for len-relative bounds track offset relative to len
+	lenRel := int64(1) << 62
+	for _, g := range guardsOf(blk) {
+		bo, ok := g.cond.(*ssa.BinOp)
+		if !ok {
+			continue
+		}
+		op := bo.Op
+		if !g.val {
+			switch op {
+			case token.LSS:
+				op = token.GEQ
+			case token.LEQ:
+				op = token.GTR
+			case token.GTR:
+				op = token.LEQ
+			case token.GEQ:
+				op = token.LSS
+			default:
+				continue
+			}
+		}
+		l, rr := stripAllConv(bo.X), stripAllConv(bo.Y)
+		if p.D(rr) == srcD {
+			l, rr = rr, l
+			switch op {
+			case token.LSS:
+				op = token.GTR
+			case token.LEQ:
+				op = token.GEQ
+			case token.GTR:
+				op = token.LSS
+			case token.GEQ:
+				op = token.LEQ
+			}
+		}
+		if p.D(l) != srcD || (op != token.LSS && op != token.LEQ) {
+			continue
+		}
+		add := int64(0)
+		if op == token.LEQ {
+			add = 1
+		}
+		if k, isC := constInt(rr); isC {
+			if k+add < best {
+				best = k + add
+			}
+			continue
+		}
+		off := int64(0)
+		base := rr
+		if sub, isB := rr.(*ssa.BinOp); isB && (sub.Op == token.SUB || sub.Op == token.ADD) {
+			if k, isC := constInt(sub.Y); isC {
+				base = stripAllConv(sub.X)
+				off = k
+				if sub.Op == token.SUB {
+					off = -k
+				}
+			}
+		}
+		if lenD != "" && p.D(base) == lenD {
+			if off+add < lenRel {
+				lenRel = off + add
+			}
+		}
+	}
+	switch {
+	case constLen >= 0 && best == constLen:
+		return true, ""
+	case constLen >= 0 && best < constLen:
+		return false, fmt.Sprintf("indexes %d..%d of the table are valid but rejected by the bound test (off-by-one): a valid symbol/variable is printed as <invalid ...>", best, constLen-1)
+	case constLen < 0 && lenRel == 0:
+		return true, ""
+	case constLen < 0 && lenRel < 0:
+		return false, "the last valid index of the table is rejected by the bound test (off-by-one)"
+	}
+	return false, "no exact upper bound 'index < length' found (see PN-INDEX for the safety half)"
 }
